@@ -372,4 +372,10 @@ Arguments hx s%string.
 (* the check runs the model with sha256 := identity, so that the key id field shows the
    hex of the exact bytes the model says are hashed *)
 Definition sha_id (s : str) : str := s.
-Definition show_load (r : res key) : str := show_res show_key r.
+(* observables longer than 8000 bytes (large certificates) are shortened to a prefix, their
+   length and a digest: Coq's read-back of a vm_compute result is not tail recursive and a
+   differing observable is printed back by the check *)
+Definition compact (s : str) : str :=
+  if N.of_nat (length s) <=? 8000 then s
+  else firstn 400 s ++ bs "...#" ++ show_N (obs_hash s) ++ bs "/" ++ show_nat (length s).
+Definition show_load (r : res key) : str := compact (show_res show_key r).
